@@ -79,6 +79,15 @@ CHECKS = {
              "Compiled scanners with <<EOF>> rules over subsets of conditions and 1-4 sources chained by yywrap are compared event by "
              "event with the machine.",
         design="DESIGN.md section 6 C10", technique="machine-checked proof (Rocq) about the executable specification + differential event streams"),
+    "C15": dict(
+        text="Rocq theorems about the documented file format (coq/Codec.v): C15_table_round_trip (id, flags, hilen, lolen, big-endian "
+             "data of the flagged width, zero padding: decode(encode t ++ rest) = (t, rest)), C15_tables_are_64bit_aligned, "
+             "C15_sets_found_by_name (sets concatenated in ANY order are each found by name), C15_truncated_never_found (every proper "
+             "prefix of a set file is refused), C15_wrong_magic_rejected; magic / ids / flags come from the source on every run. Real "
+             "--tables-file output of every table representation is read by the extracted decoder, compared with the in-code tables, "
+             "re-encoded byte-identically, loaded by the real yytables_fload (streams = in-code scanner; ASan/UBSan + leak check), "
+             "truncated at ~60 offsets per file, concatenated in all orders, and checked with tables-verify scanners.",
+        design="DESIGN.md section 6 C15", technique="machine-checked proof (Rocq) of the codec + proved decoder run on real files + differential loading"),
     "C17": dict(
         text="Rocq theorems C17_closed_check_sound / C17_never_selected: a verified closed set of specification states proves that a rule "
              "is never the selected one, for any start condition, line-start state and input; C17_witness_means_selected: a witness input "
